@@ -1,0 +1,164 @@
+//go:build verif
+
+package dilithium
+
+// Exported aliases of unexported functions for the verification monitors
+// (build tag "verif"). No logic of their own; polynomials are plain arrays.
+
+func VerifMontgomeryReduce(a int64) int32 { return montgomeryReduce(a) }
+func VerifReduce32(a int32) int32         { return reduce32(a) }
+func VerifCAddQ(a int32) int32            { return cAddQ(a) }
+func VerifPower2Round(a int32) (a1, a0 int32) {
+	a1 = power2Round(&a0, a)
+	return
+}
+func VerifDecompose(a int32) (a1, a0 int32) {
+	a1 = decompose(&a0, a)
+	return
+}
+func VerifMakeHint(a0, a1 int32) uint      { return makeHint(a0, a1) }
+func VerifUseHint(a int32, hint int) int32 { return useHint(a, hint) }
+func VerifNTT(a *[N]int32)                 { ntt(a) }
+func VerifInvNTTToMont(a *[N]int32)        { invNTTToMont(a) }
+func VerifZetas() [N]int32                 { return zetas }
+func VerifPolyChkNorm(a *[N]int32, B int32) int {
+	return polyChkNorm(&poly{*a}, B)
+}
+func VerifPolyPointWiseMontgomery(c, a, b *[N]int32) {
+	var pc poly
+	polyPointWiseMontgomery(&pc, &poly{*a}, &poly{*b})
+	*c = pc.coeffs
+}
+func VerifPolyReduce(a *[N]int32) {
+	p := poly{*a}
+	polyReduce(&p)
+	*a = p.coeffs
+}
+func VerifPolyCAddQ(a *[N]int32) {
+	p := poly{*a}
+	polyCAddQ(&p)
+	*a = p.coeffs
+}
+
+// VerifMatrixVector computes what key generation and signing compute for
+// t = A*v: NTT of v, accumulated pointwise products, reduce, inverse NTT, cAddQ.
+// mat is in the NTT domain (as sampled), v in the normal domain.
+func VerifMatrixVector(t *[K][N]int32, mat *[K][L][N]int32, v *[L][N]int32) {
+	var m [K]polyVecL
+	var pv polyVecL
+	var pt polyVecK
+	for i := 0; i < K; i++ {
+		for j := 0; j < L; j++ {
+			m[i].vec[j].coeffs = mat[i][j]
+		}
+	}
+	for j := 0; j < L; j++ {
+		pv.vec[j].coeffs = v[j]
+	}
+	polyVecLNTT(&pv)
+	polyVecMatrixPointWiseMontgomery(&pt, &m, &pv)
+	polyVecKReduce(&pt)
+	polyVecKInvNTTToMont(&pt)
+	polyVecKCAddQ(&pt)
+	for i := 0; i < K; i++ {
+		t[i] = pt.vec[i].coeffs
+	}
+}
+
+func VerifPolyEtaPack(r []uint8, a *[N]int32)   { polyEtaPack(r, &poly{*a}) }
+func VerifPolyT1Pack(r []uint8, a *[N]int32)    { polyT1Pack(r, &poly{*a}) }
+func VerifPolyT0Pack(r []uint8, a *[N]int32)    { polyT0Pack(r, &poly{*a}) }
+func VerifPolyZPack(r []uint8, a *[N]int32)     { polyZPack(r, &poly{*a}) }
+func VerifPolyW1Pack(r []uint8, a *[N]int32)    { polyW1Pack(r, &poly{*a}) }
+func VerifPolyEtaUnpack(r *[N]int32, a []uint8) { var p poly; polyEtaUnpack(&p, a); *r = p.coeffs }
+func VerifPolyT1Unpack(r *[N]int32, a []uint8)  { var p poly; polyT1Unpack(&p, a); *r = p.coeffs }
+func VerifPolyT0Unpack(r *[N]int32, a []uint8)  { var p poly; polyT0Unpack(&p, a); *r = p.coeffs }
+func VerifPolyZUnpack(r *[N]int32, a []uint8)   { var p poly; polyZUnpack(&p, a); *r = p.coeffs }
+
+func VerifPackPk(pk *[CryptoPublicKeyBytes]uint8, rho [SeedBytes]uint8, t1 *[K][N]int32) {
+	var v polyVecK
+	for i := 0; i < K; i++ {
+		v.vec[i].coeffs = t1[i]
+	}
+	packPk(pk, rho, &v)
+}
+func VerifUnpackPk(rho *[SeedBytes]uint8, t1 *[K][N]int32, pk *[CryptoPublicKeyBytes]uint8) {
+	var v polyVecK
+	unpackPk(rho, &v, pk)
+	for i := 0; i < K; i++ {
+		t1[i] = v.vec[i].coeffs
+	}
+}
+func VerifPackSk(sk *[CryptoSecretKeyBytes]uint8, rho, tr, key [SeedBytes]uint8, t0 *[K][N]int32, s1 *[L][N]int32, s2 *[K][N]int32) {
+	var vt0, vs2 polyVecK
+	var vs1 polyVecL
+	for i := 0; i < K; i++ {
+		vt0.vec[i].coeffs = t0[i]
+		vs2.vec[i].coeffs = s2[i]
+	}
+	for i := 0; i < L; i++ {
+		vs1.vec[i].coeffs = s1[i]
+	}
+	packSk(sk, rho, tr, key, &vt0, &vs1, &vs2)
+}
+func VerifUnpackSk(rho, tr, key *[SeedBytes]uint8, t0 *[K][N]int32, s1 *[L][N]int32, s2 *[K][N]int32, sk *[CryptoSecretKeyBytes]uint8) {
+	var vt0, vs2 polyVecK
+	var vs1 polyVecL
+	unpackSk(rho, tr, key, &vt0, &vs1, &vs2, sk)
+	for i := 0; i < K; i++ {
+		t0[i] = vt0.vec[i].coeffs
+		s2[i] = vs2.vec[i].coeffs
+	}
+	for i := 0; i < L; i++ {
+		s1[i] = vs1.vec[i].coeffs
+	}
+}
+func VerifPackSig(sig []uint8, c []uint8, z *[L][N]int32, h *[K][N]int32) error {
+	var vz polyVecL
+	var vh polyVecK
+	for i := 0; i < L; i++ {
+		vz.vec[i].coeffs = z[i]
+	}
+	for i := 0; i < K; i++ {
+		vh.vec[i].coeffs = h[i]
+	}
+	return packSig(sig, c, &vz, &vh)
+}
+func VerifUnpackSig(c *[SeedBytes]uint8, z *[L][N]int32, h *[K][N]int32, sig [CryptoBytes]uint8) int {
+	var vz polyVecL
+	var vh polyVecK
+	r := unpackSig(c, &vz, &vh, sig)
+	for i := 0; i < L; i++ {
+		z[i] = vz.vec[i].coeffs
+	}
+	for i := 0; i < K; i++ {
+		h[i] = vh.vec[i].coeffs
+	}
+	return r
+}
+
+func VerifRejUniform(a []int32, buf []uint8) uint32 { return rejUniform(a, buf) }
+func VerifRejEta(a []int32, buf []uint8) uint32     { return rejEta(a, buf) }
+func VerifPolyUniform(a *[N]int32, seed *[SeedBytes]uint8, nonce uint16) error {
+	var p poly
+	err := polyUniform(&p, seed, nonce)
+	*a = p.coeffs
+	return err
+}
+func VerifPolyUniformEta(a *[N]int32, seed *[CRHBytes]uint8, nonce uint16) error {
+	var p poly
+	err := polyUniformEta(&p, seed, nonce)
+	*a = p.coeffs
+	return err
+}
+func VerifPolyUniformGamma1(a *[N]int32, seed [CRHBytes]uint8, nonce uint16) {
+	var p poly
+	polyUniformGamma1(&p, seed, nonce)
+	*a = p.coeffs
+}
+func VerifPolyChallenge(c *[N]int32, seed []uint8) error {
+	var p poly
+	err := polyChallenge(&p, seed)
+	*c = p.coeffs
+	return err
+}
